@@ -321,8 +321,13 @@ func (c *Ctx) pipeSaveName(save *core.FuncInfo) {
 		nameObj := core.ObjOf(info, cs.Call.Args[1])
 		ok := false
 		why := "the name is not the result of the unique-name function"
+		// flow-sensitive: the definition that reaches the save (the last one before it), not just any definition
+		saveDef := c.reachingDef(fi, nameObj, cs.Call.Pos())
 		for _, d := range c.P.Locals(fi).Defs[nameObj] {
 			if d.Kind != core.DefMulti || d.Index != 0 {
+				continue
+			}
+			if saveDef != nil && d.Pos != saveDef.Pos {
 				continue
 			}
 			call, isCall := core.Unparen(d.Expr).(*ast.CallExpr)
@@ -365,6 +370,12 @@ func (c *Ctx) pipeSaveName(save *core.FuncInfo) {
 				return true
 			}
 			same := core.ObjOf(info, as.Rhs[0]) != nil && core.ObjOf(info, as.Rhs[0]) == nameObj
+			if same && saveDef != nil {
+				// the same variable, and the same value: no other definition of it lies between the two uses
+				if md := c.reachingDef(fi, nameObj, as.Pos()); md == nil || md.Pos != saveDef.Pos {
+					same = false
+				}
+			}
 			c.S.Decide(same, "C01", "PIPE-REMEMBERED-NAME", fi.QName()+"/"+exprStr(ix.X), c.P.Pos(as.Pos()),
 				"the name remembered for this $ref is the name the definition is saved under",
 				"the name remembered in "+exprStr(ix.X)+" ("+exprStr(as.Rhs[0])+") is not the name the definition is saved under ("+exprStr(cs.Call.Args[1])+"): a later occurrence of the same $ref is re-pointed to another definition")
@@ -374,6 +385,22 @@ func (c *Ctx) pipeSaveName(save *core.FuncInfo) {
 	if n < 2 {
 		c.S.Undecided("C03", "PIPE-SAVE-NAME", "floor", "-", fmt.Sprintf("%d callers of schutils.Save (expected 2)", n))
 	}
+}
+
+// reachingDef: the last definition of a local before a position, in source order (straight-line approximation:
+// adequate for the namers, whose name variable is assigned in the block that uses it).
+func (c *Ctx) reachingDef(fi *core.FuncInfo, o types.Object, pos token.Pos) *core.Def {
+	if o == nil {
+		return nil
+	}
+	var best *core.Def
+	defs := c.P.Locals(fi).Defs[o]
+	for i := range defs {
+		if defs[i].Pos < pos && (best == nil || defs[i].Pos > best.Pos) {
+			best = &defs[i]
+		}
+	}
+	return best
 }
 
 // isUniqifier: a module function taking spec.Definitions and a string and returning (string, bool).
